@@ -116,7 +116,7 @@ def to_bool_term(v):
         return v
     if isinstance(v, (SymInt, SymReal)):
         return (v != 0).t
-    if isinstance(v, (int, float)):
+    if isinstance(v, (int, float)) or type(v).__module__ == "numpy":
         return z3.BoolVal(bool(v))
     raise TypeError(f"not a boolean: {type(v)}")
 
